@@ -31,8 +31,8 @@ EXTRA_BUILD = ['+Gen.Equiv']
 GEN_IMPORTS = ['Gen.Equiv']
 GEN_THEOREMS = ['Vakt.GenEquiv.gen_' + n for n in (
     'Eq', 'NotEq', 'Greater', 'Less', 'GreaterOrEqual', 'LessOrEqual', 'In', 'NotIn', 'AllIn', 'AllNotIn', 'AnyIn', 'AnyNotIn',
-    'Truthy', 'Falsy', 'And', 'Or', 'Not', 'Any', 'Neither', 'Equal', 'PairsEqual', 'StartsWith', 'EndsWith', 'Contains',
-    'SubjectEqual', 'ActionEqual', 'ResourceIn', 'SubjectMatch', 'ActionMatch', 'ResourceMatch')] + \
+    'Truthy', 'Falsy', 'And', 'Or', 'Not', 'Any', 'Neither', 'Equal', 'PairsEqual', 'RegexMatch', 'StartsWith', 'EndsWith', 'Contains',
+    'SubjectEqual', 'ActionEqual', 'ResourceIn', 'SubjectMatch', 'ActionMatch', 'ResourceMatch', 'CIDR')] + \
     ['Vakt.GenEquiv.translated_covers']
 FLOOR = {'quick': 500, 'thorough': 5000}
 ASSUMPTIONS = [
